@@ -574,6 +574,16 @@ def flatten_starred_displays(tree):
                 node.elts = self._flat(node.elts)
             return node
 
+        def visit_Subscript(self, node):
+            self.generic_visit(node)
+            # N21: `(a, b)[1]` is b
+            if isinstance(node.ctx, ast.Load) and isinstance(node.value, (ast.Tuple, ast.List)) and isinstance(node.slice, ast.Constant) and isinstance(node.slice.value, int) \
+                    and not isinstance(node.slice.value, bool) and not any(isinstance(e, ast.Starred) for e in node.value.elts) and -len(node.value.elts) <= node.slice.value < len(node.value.elts) \
+                    and not any(isinstance(x, ast.Call) for e in node.value.elts for x in ast.walk(e)):
+                count[0] += 1
+                return node.value.elts[node.slice.value]
+            return node
+
         def visit_Call(self, node):
             self.generic_visit(node)
             node.args = self._flat(node.args)
